@@ -87,6 +87,14 @@ def handle (op : String) (args : List String) : Option Ans :=
         some (outBytes (Model.Curve.kdfDerive P n (le id) ctx key),
               if n < 16 ∨ 64 < n then "err" else okHex (Spec.Blake2b.hashSP n key (id ++ zeros 8) (ctx ++ zeros 8) []))
       | _, _ => none
+    -- `kdf_after <len> <id> <ctx> <key> <prev_len>`: the same derivation, made right after a derivation of `prev_len` bytes with the
+    -- same key, context and id — the function has no memory, so the answer is that of `kdf`
+    | "kdf_after", n :: rest =>
+      match n.toNat?, hexArgs (rest.take 3) with
+      | some n, some [id, ctx, key] =>
+        some (outBytes (Model.Curve.kdfDerive P n (le id) ctx key),
+              if n < 16 ∨ 64 < n then "err" else okHex (Spec.Blake2b.hashSP n key (id ++ zeros 8) (ctx ++ zeros 8) []))
+      | _, _ => none
     | _, _ => none
 
 end Driver.Curve
